@@ -166,6 +166,19 @@ mkunaryexpr(enum tokenkind op, struct expr *base)
 static unsigned
 bitfieldwidth(struct expr *e)
 {
+	/* the value of an assignment, prefix increment or comma expression has the type of the bit-field it comes from */
+	for (;;) {
+		if (e->kind == EXPRASSIGN) {
+			e = e->u.assign.l;
+		} else if (e->kind == EXPRINCDEC && !e->u.incdec.post) {
+			e = e->base;
+		} else if (e->kind == EXPRCOMMA) {
+			for (e = e->base; e->next; e = e->next)
+				;
+		} else {
+			break;
+		}
+	}
 	if (e->kind != EXPRBITFIELD)
 		return -1;
 	return e->type->size * 8 - e->u.bitfield.bits.before - e->u.bitfield.bits.after;
